@@ -25,8 +25,8 @@ from lib.monitors import absvalue as av
 PROP = "C08"
 BATCH = 8
 # share of constant-valued definitions that must be covered by value (not merely by an unknown state); calibrated on the
-# healthy tree (measured 0.90-0.93 on seeds 0-2, both tiers): half of it
-NONVACUOUS_FLOOR = 0.45
+# healthy tree (measured 0.998-0.999 on quick seeds 0-4 and thorough seed 0: 99749 of 99824): half of it
+NONVACUOUS_FLOOR = 0.5
 
 
 # ---------------------------------------------------------------------------------------------------------------------
@@ -697,11 +697,11 @@ def main():
         if share < NONVACUOUS_FLOOR and not rp:
             chk.note_inconclusive(f"only {share:.2%} of constant-valued definitions are covered by value (floor {NONVACUOUS_FLOOR:.0%}): cover holds mostly vacuously")
     if not rp:
-        # floors: about half of what seeds 0-2 measured on the healthy tree (quick: 5485 / 1361 / 2036 / 11426 / 181 / 42471;
-        # thorough: 134437 / 34658 / 145717 / 158856 / 1528 / 579490)
+        # floors: about half of what seeds 0-4 measured on the healthy tree (quick: 5400-5654 / 1361-1525 / 2003-2327 / 179-188 /
+        # 42471-44736; thorough seed 0: 134405 / 34656 / 52239 / 1528 / 579507)
         chk.require("definitions covered by value / allocation site", 2500 if not thorough else 60000)
         chk.require("object definitions covered by allocation site and members", 600 if not thorough else 15000)
-        chk.require("folds whose evaluated text and result were checked", 1000 if not thorough else 60000)
+        chk.require("folds whose evaluated text and result were checked", 1000 if not thorough else 25000)
         # (no floor on strict_eval / exec events: a tree that evaluates no text at all is the best possible outcome; the deciding
         #  hook for the core's literal handling is compute_two_states, counted by the floor above)
         chk.require("metamorphic pairs compared", 80 if not thorough else 700)
